@@ -93,10 +93,11 @@ func (c *escapeCallsiteInfoImpl) Resolve(callee *ssa.Function) dataflow.EscapeCa
 	// For argument/parameter nodes, these will be distinct, but their pointees (representing heap objects)
 	// will be the same exact Nodes.
 	mapNode = func(callerNode *Node, inner *Node) {
-		g.status[inner] = c.g.status[callerNode]
-		if c.g.status[callerNode] == Leaked {
-			g.rationales[inner] = c.g.rationales[callerNode]
-		}
+		// One node of the callee can stand for several nodes of the caller (the free variable of a closure called
+		// through a function value with several pointees), and a node can be reached again after edges to it were
+		// added: join the statuses, and push them along the edges already there, rather than keeping whichever
+		// status the iteration over the pointees happens to assign last.
+		g.MergeNodeStatus(inner, c.g.status[callerNode], c.g.rationales[callerNode])
 		for _, e := range c.g.Edges(callerNode, nil, EdgeAll) {
 			pointee := e.dest
 			nodes.AddForeignNode(pointee)
